@@ -106,7 +106,114 @@ func (s *synth) pickHidden(round int) *stask {
 	return chainedCand
 }
 
+// synthesizeExact (hook mode): the event log *is* the label sequence.
+func (w *world) synthesizeExact() *synth {
+	s := &synth{w: w, delivered: map[int]mres{}, chained: map[int]bool{}}
+	byPid := map[int]*stask{}
+	for _, t := range w.tasks {
+		byPid[t.pid] = &stask{pid: t.pid, vis: t}
+	}
+	events := w.eventLog()
+	for _, ev := range events {
+		if ev.kind == "chain" {
+			byPid[ev.pid] = &stask{pid: ev.pid, waits: ev.waits}
+		}
+	}
+	callsByRound := map[int][]callObs{}
+	for _, c := range w.calls {
+		callsByRound[c.round] = append(callsByRound[c.round], c)
+	}
+	exec := 0
+	finishBatches := func() {
+		for _, rg := range w.regs {
+			if rg.exec == exec {
+				if _, ok := s.delivered[rg.pid]; !ok {
+					s.delivered[rg.pid] = mres{val: 0, err: true}
+				}
+			}
+		}
+	}
+	take := func(pid int, how string) {
+		t := byPid[pid]
+		if t == nil {
+			s.notes = append(s.notes, fmt.Sprintf("%s of an unknown promise", how))
+			s.emit("(%s 999999)", how)
+			return
+		}
+		s.receive(t, how)
+	}
+	returned := false
+	for _, ev := range events {
+		switch ev.kind {
+		case "go":
+			if ev.dep >= 0 {
+				s.emit("(go %d %d)", ev.pid, ev.dep)
+			} else {
+				s.emit("(go %d)", ev.pid)
+			}
+		case "batch":
+			if ev.dep >= 0 {
+				s.emit("(batch %d %d %d %d)", ev.k, ev.item, ev.pid, ev.dep)
+			} else {
+				s.emit("(batch %d %d %d)", ev.k, ev.item, ev.pid)
+			}
+		case "chain":
+			ws := make([]string, len(ev.waits))
+			for i, p := range ev.waits {
+				ws[i] = fmt.Sprint(p)
+			}
+			s.emit("(chain %d (%s))", ev.pid, strings.Join(ws, " "))
+		case "idle":
+			s.emit("(idle)")
+			if cs := callsByRound[ev.round]; len(cs) > 0 {
+				sort.Slice(cs, func(i, j int) bool { return cs[i].k < cs[j].k })
+				var groups []string
+				for _, c := range cs {
+					g := []string{fmt.Sprint(c.k)}
+					for _, id := range c.items {
+						if id < 0 || id >= len(w.regs) {
+							continue
+						}
+						rg := w.regs[id]
+						v, e := resAtom(rg.res)
+						g = append(g, "("+v+" "+e+")")
+						if _, dup := s.delivered[rg.pid]; !dup {
+							s.delivered[rg.pid] = rg.res
+						}
+					}
+					groups = append(groups, "("+strings.Join(g, " ")+")")
+				}
+				s.emit("(flush %s)", strings.Join(groups, " "))
+			}
+		case "recv":
+			take(ev.pid, "recvb")
+		case "drain":
+			take(ev.pid, "drain")
+		case "released":
+			take(ev.pid, "release")
+		case "iret":
+			s.emit("(iret)")
+		case "ret":
+			s.emit("(ret)")
+			finishBatches()
+			exec++
+			returned = true
+		case "start":
+			s.emit("(start)")
+			returned = false
+		}
+	}
+	if !returned {
+		s.emit("(ret)")
+		finishBatches()
+	}
+	return s
+}
+
 func (w *world) synthesize() *synth {
+	if hookMode {
+		return w.synthesizeExact()
+	}
 	s := &synth{w: w, delivered: map[int]mres{}, chained: map[int]bool{}, lastRound: len(w.rounds)}
 	byPid := map[int]*stask{}
 	for _, t := range w.tasks {
@@ -114,7 +221,7 @@ func (w *world) synthesize() *synth {
 		s.tasks = append(s.tasks, st)
 		byPid[t.pid] = st
 	}
-	for _, ev := range w.events {
+	for _, ev := range w.eventLog() {
 		if ev.kind == "chain" {
 			st := &stask{pid: ev.pid, waits: ev.waits}
 			s.tasks = append(s.tasks, st)
@@ -126,7 +233,7 @@ func (w *world) synthesize() *synth {
 	for _, c := range w.calls {
 		callsByRound[c.round] = append(callsByRound[c.round], c)
 	}
-	for _, ev := range w.events {
+	for _, ev := range w.eventLog() {
 		switch ev.kind {
 		case "go":
 			if ev.dep >= 0 {
